@@ -1,8 +1,8 @@
 (* C09: the composed round trip  decode (encode f)  for every well-formed 3-d field, every
    representation, extend_scalar on/off, with the subregion side-car. *)
 From DF Require Import Prelude Constants_gen Region Mesh Ovf QLemmas ListLemmas C01_nd
-                       C09_layout C09_codec C09_mesh.
-From Coq Require Import Ascii.
+                       C09_layout C09_codec C09_mesh C09_faults.
+From Coq Require Import Ascii Arith.
 Open Scope Q_scope.
 
 (* ---------- check values: what the writer stores is what the reader expects ---------- *)
@@ -107,7 +107,7 @@ Lemma all_same3 (l : list string) : length l = 3%nat -> all_same l = true -> exi
 Proof.
   destruct l as [|a [|b [|c [|e t]]]]; intros HL H; simpl in HL; try discriminate HL. simpl in H.
   apply Bool.andb_true_iff in H. destruct H as [H1 H]. apply Bool.andb_true_iff in H. destruct H as [H2 _].
-  apply String.eqb_eq in H1. apply String.eqb_eq in H2. subst. exists a. reflexivity.
+  apply String.eqb_eq in H1. apply String.eqb_eq in H2. subst b c. exists a. reflexivity.
 Qed.
 
 (* ---------- side-car ---------- *)
@@ -182,3 +182,191 @@ Section Values.
     rewrite E0, E1, E2. rewrite Nat.mul_1_r, Nat.add_0_r. reflexivity.
   Qed.
 End Values.
+
+Lemma Forall2_3 {A B} (P : A -> B -> Prop) a b c a' b' c' :
+  Forall2 P [a; b; c] [a'; b'; c'] -> P a a' /\ P b b' /\ P c c'.
+Proof.
+  intros H. inversion H as [|? ? ? ? H1 T1]; subst. inversion T1 as [|? ? ? ? H2 T2]; subst.
+  inversion T2 as [|? ? ? ? H3 T3]; subst. repeat split; assumption.
+Qed.
+
+Lemma Forall_3 {A} (P : A -> Prop) a b c : Forall P [a; b; c] -> P a /\ P b /\ P c.
+Proof.
+  intros H. inversion H as [|? ? H1 T1]; subst. inversion T1 as [|? ? H2 T2]; subst.
+  inversion T2 as [|? ? H3 T3]; subst. repeat split; assumption.
+Qed.
+
+Lemma labels_all (nv : nat) (vds : option (list string)) (extend : bool) :
+  (1 <= nv)%nat ->
+  ((2 <= nv)%nat -> exists l, vds = Some l /\ length l = nv /\ nodupb l = true /\ Forall label_ok l) ->
+  exists labels vdres,
+    (if ((if extend && (nv =? 1)%nat then 3%nat else nv) =? 1)%nat then OK ["field_x"%string]
+     else if extend && (nv =? 1)%nat then OK (repeat "field_x"%string (if extend && (nv =? 1)%nat then 3%nat else nv))
+     else match vds with Some l => OK (map field_label l) | None => Err TypeE end) = OK labels /\
+    field_vdims (if extend && (nv =? 1)%nat then 3%nat else nv) (read_vdims (Some labels)) = OK vdres /\
+    ((2 <= nv)%nat -> vdres = vds).
+Proof.
+  intros H1 Hlab. destruct (nv =? 1)%nat eqn:E.
+  - apply Nat.eqb_eq in E. subst nv. destruct extend; simpl.
+    + exists (repeat "field_x"%string 3), (Some ["x"; "y"; "z"]%string).
+      repeat split; try reflexivity. intros; lia.
+    + exists ["field_x"%string], (Some ["x"%string]). repeat split; try reflexivity. intros; lia.
+  - apply Nat.eqb_neq in E. assert (H2 : (2 <= nv)%nat) by lia.
+    destruct (Hlab H2) as (l & Hv & HL & HN & HF). subst vds.
+    rewrite Bool.andb_false_r. assert (E1 : (nv =? 1)%nat = false) by (apply Nat.eqb_neq; exact E).
+    rewrite E1. exists (map field_label l), (Some l). repeat split; try reflexivity.
+    apply labels_vector; assumption.
+Qed.
+
+Lemma data_stage {V A : Type} (rp : repr) (PL : list V) (N : nat) (K : list V -> res A) :
+  length PL = N ->
+  (do data <-
+     match rp with
+     | RTxt => OK (firstn N PL)
+     | RBin4 =>
+         match match rp with RTxt => None | _ => Some (write_check_value rp) end with
+         | Some cv => if negb (Qeq_bool cv (check_value RBin4)) then Err ValueE
+                      else if (length PL <? N)%nat then Err ValueE else OK (firstn N PL)
+         | None => Err ValueE
+         end
+     | RBin8 =>
+         match match rp with RTxt => None | _ => Some (write_check_value rp) end with
+         | Some cv => if negb (Qeq_bool cv (check_value RBin8)) then Err ValueE
+                      else if (length PL <? N)%nat then Err ValueE else OK (firstn N PL)
+         | None => Err ValueE
+         end
+     end; K data) = K PL.
+Proof.
+  intros HL.
+  assert (F : firstn N PL = PL) by (apply firstn_all2; rewrite HL; apply Nat.le_refl).
+  destruct rp; try rewrite write_check_accepted; cbn [negb]; rewrite ?HL, ?Nat.ltb_irrefl, F; reflexivity.
+Qed.
+
+Section Roundtrip.
+  Variable V : Type.
+  Variables d zero : V.
+  Variables wr rd : repr -> V -> V.
+
+  Theorem roundtrip (f : ofield V) (rp : repr) (extend : bool) :
+    wf_ofield f ->
+    let ext := extend && (of_nvdim f =? 1)%nat in
+    exists fl sc f',
+      encode d zero wr f rp extend true = OK (fl, sc) /\
+      decode d rd fl sc = OK f' /\
+      pmin (reg (of_mesh f')) = pmin (reg (of_mesh f)) /\
+      pmax (reg (of_mesh f')) = pmax (reg (of_mesh f)) /\
+      units (reg (of_mesh f')) = units (reg (of_mesh f)) /\
+      n (of_mesh f') = n (of_mesh f) /\
+      sidecar_of (of_mesh f') = sidecar_of (of_mesh f) /\
+      of_nvdim f' = (if ext then 3%nat else of_nvdim f) /\
+      ((2 <= of_nvdim f)%nat -> of_vdims f' = of_vdims f) /\
+      of_unit f' = of_unit f /\
+      of_vals f' = map (fun v => rd rp (wr rp v))
+                       (if ext then extend_vals zero (of_vals f) else of_vals f).
+  Proof.
+    intros W. destruct f as [m nv vds un vals]. destruct m as [r nn b ss].
+    destruct r as [pm pM ds us tfr].
+    unfold wf_ofield in W. cbn [of_mesh of_nvdim of_vdims of_unit of_vals reg pmin pmax units] in W.
+    destruct W as (Wm & L3 & Hsame & Hnv & Hlab & Hunit & (nx & ny & nz & Hd3 & HL)).
+    unfold wf_mesh, wf_region in Wm. cbn [reg n pmin pmax units dims tf] in Wm.
+    destruct Wm as ((Lp & _ & _ & Lu & _ & HF2 & Htf) & Ln & Hpos).
+    destruct pm as [|x0 [|y0 [|z0 [|? ?]]]]; simpl in L3; try discriminate L3.
+    destruct pM as [|x1 [|y1 [|z1 [|? ?]]]]; simpl in Lp; try discriminate Lp.
+    destruct nn as [|k0 [|k1 [|k2 [|? ?]]]]; simpl in Ln; try discriminate Ln.
+    destruct (all_same3 us Lu Hsame) as [u Hus]. subst us.
+    apply Forall2_3 in HF2. destruct HF2 as (Hx & Hy & Hz).
+    apply Forall_3 in Hpos. destruct Hpos as (P0 & P1 & P2).
+    unfold dims3 in Hd3. cbn [n] in Hd3. inversion Hd3; subst nx ny nz. clear Hd3.
+    cbn zeta. cbn [of_mesh of_nvdim of_vdims of_unit of_vals reg pmin pmax units n].
+    destruct (labels_all nv vds extend Hnv Hlab) as (labels & vdres & EL & EV & EQ).
+    set (ext := extend && (nv =? 1)%nat) in *. set (wd := if ext then 3%nat else nv) in *.
+    eexists. eexists. eexists. split.
+    { unfold encode.
+      cbn [of_mesh of_nvdim of_vdims of_unit of_vals reg pmin pmax units n subs ndim length Nat.eqb negb].
+      cbv zeta. fold ext. fold wd. rewrite EL. cbn [bind]. rewrite Hsame.
+      cbn [negb dims3 n]. reflexivity. }
+    split.
+    { unfold decode. cbn [f_v2 f_meshunit f_base f_nodes f_step f_min f_max f_valuedim f_labels f_units
+                           f_rep f_check f_payload f_cols f_tail_ok bind].
+      rewrite !Nat2Z.id.
+      cbn [cell map3 reg pmin pmax n length Nat.eqb andb negb hd repeat].
+      rewrite mk_region3 by assumption. cbn [bind].
+      assert (Hdtf : 0 <= default_tf) by (unfold default_tf, region_tf_default; discriminate).
+      rewrite (reconstruct3 (mkRegion [x0; y0; z0] [x1; y1; z1] ["x"; "y"; "z"]%string [u; u; u] default_tf)
+                 k0 k1 k2 x0 y0 z0 x1 y1 z1 eq_refl eq_refl Hx Hy Hz P0 P1 P2 Hdtf).
+      cbn [bind dims3 n reg bc].
+      rewrite (nodes3 k0 k1 k2 P0 P1 P2).
+      set (nx := Z.to_nat k0) in *. set (ny := Z.to_nat k1) in *. set (nz := Z.to_nat k2) in *.
+      set (PL := map (wr rp) (ovf_rows nx ny nz (row_of d zero ext ny nz nv vals))).
+      assert (Hext : ext = true -> nv = 1%nat).
+      { unfold ext. intros E. apply Bool.andb_true_iff in E. destruct E as [_ E].
+        apply Nat.eqb_eq in E. exact E. }
+      assert (Hrow : forall i j k, length (row_of d zero ext ny nz nv vals i j k) = wd).
+      { intros i j k. unfold row_of, wd. cbv zeta. destruct ext.
+        - rewrite (Hext eq_refl). reflexivity.
+        - apply comps_length. }
+      assert (HPL : length PL = (nx * (ny * nz) * wd)%nat).
+      { unfold PL. rewrite map_length. rewrite (ovf_rows_length V nx ny nz _ wd Hrow). ring. }
+      assert (HPL2 : length PL = (nx * ny * nz * wd)%nat) by (rewrite HPL; ring).
+      assert (Hwd : (1 <= wd)%nat) by (unfold wd; destruct ext; lia).
+      fold wd. rewrite (data_stage rp PL _ _ HPL). cbv beta.
+      rewrite HPL2, Nat.eqb_refl. cbn [negb].
+      assert (Hwd0 : (wd =? 0)%nat = false) by (apply Nat.eqb_neq; lia).
+      rewrite Hwd0. rewrite EV. cbn [bind]. reflexivity. }
+    cbn [of_mesh of_nvdim of_vdims of_unit of_vals].
+    assert (Hwd : (1 <= wd)%nat) by (unfold wd; destruct ext; lia).
+    assert (Hext : ext = true -> nv = 1%nat).
+    { unfold ext. intros E. apply Bool.andb_true_iff in E. destruct E as [_ E].
+      apply Nat.eqb_eq in E. exact E. }
+    assert (Hvals :
+      map (rd rp) (from_ovf_order d (Z.to_nat k0) (Z.to_nat k1) (Z.to_nat k2) wd
+                     (map (wr rp) (ovf_rows (Z.to_nat k0) (Z.to_nat k1) (Z.to_nat k2)
+                                     (row_of d zero ext (Z.to_nat k1) (Z.to_nat k2) nv vals))))
+      = map (fun v => rd rp (wr rp v)) (if ext then extend_vals zero vals else vals)).
+    { unfold wd. destruct ext eqn:Eext.
+      - pose proof (Hext eq_refl) as N1. subst nv.
+        rewrite rows_extended by exact HL. apply from_to_map_plain.
+        rewrite extend_vals_length, HL. ring.
+      - change (row_of d zero false (Z.to_nat k1) (Z.to_nat k2) nv vals)
+          with (comps d (Z.to_nat k1) (Z.to_nat k2) nv vals).
+        change (ovf_rows (Z.to_nat k0) (Z.to_nat k1) (Z.to_nat k2) (comps d (Z.to_nat k1) (Z.to_nat k2) nv vals))
+          with (to_ovf_order d (Z.to_nat k0) (Z.to_nat k1) (Z.to_nat k2) nv vals).
+        apply from_to_map_plain. exact HL. }
+    destruct ss as [|s0 ss'].
+    - cbn [length Nat.eqb negb reg pmin pmax units n subs sidecar_of map].
+      repeat split; try reflexivity.
+      + exact EQ.
+      + apply unit_roundtrip; assumption.
+      + exact Hvals.
+    - cbn [length Nat.eqb negb reg pmin pmax units n subs dims tf].
+      repeat split; try reflexivity.
+      + unfold sidecar_of at 1. cbn [subs]. apply sidecar_rebuilt.
+      + exact EQ.
+      + apply unit_roundtrip; assumption.
+      + exact Hvals.
+  Qed.
+End Roundtrip.
+
+(* ---------- non-vacuity: the witness field of C09_codec is well formed ---------- *)
+Lemma wit_wf : wf_ofield (wit_field ["a"; "b"]%string).
+Proof.
+  unfold wf_ofield, wit_field, wit_mesh. cbn [of_mesh of_nvdim of_vdims of_unit of_vals reg pmin pmax units n].
+  split.
+  { unfold wf_mesh, wf_region. cbn [reg n pmin pmax units dims tf]. repeat split; try reflexivity.
+    - simpl. lia.
+    - repeat constructor; simpl; intuition discriminate.
+    - repeat constructor; reflexivity.
+    - unfold default_tf, region_tf_default. discriminate.
+    - repeat constructor; reflexivity. }
+  split; [reflexivity|]. split; [reflexivity|]. split; [lia|]. split.
+  { intros _. exists ["a"; "b"]%string. repeat split; try reflexivity.
+    repeat constructor; reflexivity. }
+  split.
+  { simpl. repeat split; try discriminate. reflexivity. }
+  exists 2%nat, 1%nat, 1%nat. split; reflexivity.
+Qed.
+
+Lemma wit_file_decodes : exists fl sc f',
+  encode 0 0 idQ (wit_field ["a"; "b"]%string) RBin8 false true = OK (fl, sc) /\
+  decode 0 idQ fl sc = OK f' /\ C09_faults.is_binary (f_rep fl) = true /\ C09_faults.announced fl = 4%nat.
+Proof. vm_compute. eexists. eexists. eexists. repeat split. Qed.
